@@ -432,7 +432,7 @@ func c11Run(t *testing.T, seed int64, cs c11Case, known map[string]bool) *c11Res
 				w2 := *w
 				w2.execInner(Op{K: "publish", Topic: "t", Msgs: msgs}, &Result{T: w.Now()})
 				res.evs = append(res.evs, "spurious", "loop")
-			case "ack", "nack", "delay0", "extack", "extend":
+			case "ack", "nack", "delay0", "extack", "extend", "ackdelay0":
 				conn.mu.Lock()
 				var ids []uuid.UUID
 				for _, i := range a.Pick {
@@ -486,6 +486,14 @@ func c11Run(t *testing.T, seed int64, cs c11Case, known map[string]bool) *c11Res
 						conn.greqs <- &pubsubpb.StreamingPullRequest{ModifyDeadlineAckIds: strs(u), ModifyDeadlineSeconds: rep(len(u), 0)}
 					} else {
 						conn.reqs <- &actions.MessageStreamRequest{Delay: u, DelaySeconds: 0}
+					}
+					res.evs = append(res.evs, "s~"+strings.Join(nums, "+"))
+				case "ackdelay0":
+					// one stream request that acknowledges the first picked id and gives the others a zero deadline
+					if cs.Grpc {
+						conn.greqs <- &pubsubpb.StreamingPullRequest{AckIds: strs(u[:1]), ModifyDeadlineAckIds: strs(u[1:]), ModifyDeadlineSeconds: rep(len(u)-1, 0)}
+					} else {
+						conn.reqs <- &actions.MessageStreamRequest{Ack: u[:1], Delay: u[1:], DelaySeconds: 0}
 					}
 					res.evs = append(res.evs, "s~"+strings.Join(nums, "+"))
 				case "extack":
